@@ -2,7 +2,7 @@
    transcribed from (model/Expected.v).  Every lemma is closed by reflexivity: an edit to a table
    in /repo breaks the lemma named after it. *)
 From Coq Require Import String List.
-From Plush Require Import gen.Tables model.Expected.
+From Plush Require Import gen.PrecTables gen.Tables model.Expected.
 
 (* model/Parser.v LOWEST, PREFIX *)
 Lemma agree_prec_levels : prec_levels = exp_prec_levels. Proof. reflexivity. Qed.
